@@ -10,7 +10,7 @@
 (***************************************************************************)
 EXTENDS Integers, Sequences, FiniteSets, FiniteSetsExt, SequencesExt, TLC, Json
 
-CONSTANTS MaxSmall, BigSizes
+CONSTANTS MaxSmall, BigSizes, GridN
 
 RECURSIVE SumSeq(_)
 SumSeq(s) == IF Len(s) = 0 THEN 0 ELSE Head(s) + SumSeq(Tail(s))
@@ -29,6 +29,14 @@ Triple(col) == LET m == Mult(col)
 (* large families <<multiplicities of the repeated values, #singletons, #missing>> *)
 BigCols == {<<d, n - SumSeq(d) - m, m>> : d \in {<<>>, <<2>>, <<3>>, <<2, 2>>}, m \in {0, 1, 2, 3}, n \in BigSizes}
 
+(* the (count, rows) grid of the percentages: for every table size n up to GridN a column with s singletons and one *)
+(* value repeated n - s times (every number of distinct values), and a column with m missing values and one value  *)
+(* in the other rows (every number of missing values) - every quotient k / n with its own rounding to two decimals *)
+MidCols == UNION {{<<(IF n - s > 1 THEN <<n - s>> ELSE <<>>), (IF n - s = 1 THEN s + 1 ELSE s), 0>> : s \in 0..(n - 1)}
+                    \cup {<<(IF n - m > 1 THEN <<n - m>> ELSE <<>>), (IF n - m = 1 THEN 1 ELSE 0), m>> : m \in 1..(n - 1)}
+                  : n \in 1..GridN}
+GridCols == MidCols
+
 (* expected statistics *)
 Rows(reps, singles, miss) == SumSeq(reps) + singles + miss
 Unique(reps, singles, miss) == Len(reps) + singles + (IF miss > 0 THEN 1 ELSE 0)
@@ -42,7 +50,7 @@ Warns(miss) == miss > 0
 VARIABLES kind, col
 vars == <<kind, col>>
 Init == /\ \/ kind = "small" /\ col \in SmallCols
-           \/ kind = "big" /\ col \in BigCols
+           \/ kind = "big" /\ col \in BigCols \cup GridCols
         /\ PrintT(<<"GEN", ToJson([kind |-> kind, col |-> col])>>)
 Next == UNCHANGED vars
 Spec == Init /\ [][Next]_vars
